@@ -106,6 +106,12 @@ fn(H1 + ".stream_send", params={"event": _ev.STREAM_EVENTS}, task="app",
        ("C02.h11.body", "implies(isinstance(event, Body), trace_all('h11', 'x', isinstance(x, h11.Data) and x.data == event.data))", "C02"),
        ("C02.h11.end", "implies(isinstance(event, EndBody), trace_all('h11', 'x', isinstance(x, h11.EndOfMessage)))", "C02"),
        ("C02.h11.raw", "trace_all('sent', 'x', isinstance(x, (RawData, Closed, Updated)))", "C02"),
+       # C02.h11.headers: the application's headers come first, in order
+       ("C02.h11.headers-first", "implies(isinstance(event, Response), trace_all('h11', 'x', starts_with_seq(x.headers, event.headers)))", "C02"),
+       # C06.close-hdr / C18.ka.h11: close is announced on the response that reaches the maximum
+       ("C18.ka.h11", "implies(isinstance(event, Response) and event.status_code >= 200 and old(self.keep_alive_requests) >= self.config.keep_alive_max_requests, "
+        "trace_all('h11', 'x', x.headers[-1] == (b'connection', b'close')))", "C18,C06"),
+       ("C02.h11.status", "implies(isinstance(event, Response), trace_all('h11', 'x', x.status_code == event.status_code))", "C02"),
    ],
    props=("C02", "C06", "C12"))
 
